@@ -86,6 +86,7 @@ func cmdEngine(args []string) int {
 	}
 	tl := time.Since(t0)
 	res := run(w, *tier)
+	reconcileReviewed(w, name, res)
 	counts := map[string]int{}
 	for _, o := range res.Obligations {
 		counts[o.Verdict]++
@@ -231,6 +232,31 @@ func cmdCheck(args []string) int {
 			bad = append(bad, o)
 		}
 	}
+	// a listed finding whose site was renamed or extracted is still that finding
+	if len(bad) > 0 && len(knownByKey) > 0 {
+		entries := map[string]string{}
+		for k, v := range knownByKey {
+			entries[k] = v.What
+		}
+		present := map[string]bool{}
+		for _, o := range all {
+			present[o.Key()] = true
+		}
+		taken := map[string]bool{}
+		kept := bad[:0]
+		for _, o := range bad {
+			k, how := pairOrphan(w, o, entries, func(k string) bool { return present[k] || taken[k] }, nil)
+			if k == "" {
+				kept = append(kept, o)
+				continue
+			}
+			taken[k] = true
+			fmt.Printf("KNOWN-FINDING: property=%s %s — %s (listed as %s: %s)\n", *prop, o.Key(), knownByKey[k].What, k, how)
+			knownMatched = append(knownMatched, k)
+			delete(knownByKey, k)
+		}
+		bad = kept
+	}
 	for i, o := range bad {
 		violations++
 		rp := writeReplay(*prop, i+1, o)
@@ -300,6 +326,7 @@ func cachedRun(name string, run EngineFunc, w *World, tier string) *EngineResult
 		return r
 	}
 	r := run(w, tier)
+	reconcileReviewed(w, name, r)
 	runCache[name+"/"+tier] = r
 	return r
 }
